@@ -95,6 +95,169 @@ pub fn drain(sim: &mut Sim, env: &mut Env, rng: &mut StdRng, interval: u64) {
     }
 }
 
+/// Like `drain`, but most answers are preceded or replaced by adversarial ones.
+pub fn drain_adv(sim: &mut Sim, env: &mut Env, rng: &mut StdRng, interval: u64, with_subst: bool) {
+    let n = env.peers.len();
+    for _ in 0..200 {
+        let mut any = false;
+        for i in 0..n {
+            if !env.peers[i].connected {
+                continue;
+            }
+            if rng.gen_bool(0.5) {
+                env.mutate_filters(sim, i, rng, with_subst);
+            }
+            if env.answer_filter(sim, i, interval) {
+                any = true;
+            }
+            if rng.gen_bool(0.3) {
+                if env.mutate_blocks_proof(sim, i, rng) {
+                    any = true;
+                }
+            } else if env.answer_blocks_proof(sim, i) {
+                any = true;
+            }
+            if rng.gen_bool(0.3) {
+                if env.mutate_txs_proof(sim, i, rng) {
+                    any = true;
+                }
+            } else if env.answer_txs_proof(sim, i) {
+                any = true;
+            }
+            // blocks one by one, a forged body first for some of them
+            let p = env.peers[i].idx;
+            if let Some(req) = sim.take_request(p, crate::verif::sim::as_get_blocks) {
+                any = true;
+                let mut msgs = env.peers[i].server.blocks(&sim.chain, &req);
+                if rng.gen_bool(0.5) {
+                    msgs.reverse();
+                }
+                for m in msgs {
+                    let bid = match m.to_enum() {
+                        ckb_types::packed::SyncMessageUnion::SendBlock(sb) => sim.chain.id_of(&sb.block().header().calc_header_hash()),
+                        _ => None,
+                    };
+                    if let Some(bid) = bid {
+                        if rng.gen_bool(0.4) {
+                            env.deliver_forged_block(sim, i, bid, rng.gen_range(0..3));
+                        }
+                    }
+                    env.deliver_block(sim, i, m, "true");
+                }
+            }
+        }
+        if !any {
+            break;
+        }
+    }
+}
+
+/// C06 / C02: an honest sync in which the answers of the proven peers are preceded or replaced by
+/// mutated BlockFilters, SendBlocksProof, SendTransactionsProof and SendBlock messages.
+fn adv_scenario(rng: &mut StdRng, sc: usize, out: Box<dyn std::io::Write>, kv: &HashMap<String, String>, with_subst: bool) -> (Box<dyn std::io::Write>, u64, Vec<String>) {
+    let pow = if rng.gen_bool(0.2) { "eaglesong" } else { "dummy" };
+    let main_len = rng.gen_range(8..=arg_u64(kv, "maxlen", 24) as usize);
+    let last_n = *[2u64, 3, 5][..].get(rng.gen_range(0..3)).unwrap();
+    let interval = *[3u64, 4, 5][..].get(rng.gen_range(0..3)).unwrap();
+    let npeers = rng.gen_range(1..=3usize);
+    let built = build_tx_world(rng, pow, main_len, 1, 2, 3);
+    let cfg = Config { last_n, max_outbound: npeers as u32, interval, blocks_in_transit: rng.gen_range(1..=4) };
+    let leaf = built.leaves[0];
+    let mut sim: Sim = new_sim(built.chain, cfg, npeers, out, &format!("{}-{}", if with_subst { "advsub" } else { "adv" }, sc), vec!["peersync", "filter"]);
+    let nleaf = sim.chain.blocks[leaf].num;
+    let tips: Vec<(usize, usize)> = (0..npeers)
+        .map(|_| (sim.chain.ancestor_at(leaf, rng.gen_range((nleaf * 2 / 3).max(1)..=nleaf)).unwrap(), leaf))
+        .collect();
+    let mut env = Env::new(&sim, &tips);
+    for ep in env.peers.iter_mut() {
+        ep.server.filters_batch = rng.gen_range(2..=5);
+        ep.server.hashes_batch = rng.gen_range(2..=8);
+        ep.server.cp_batch = rng.gen_range(2..=6);
+        ep.server.v1 = rng.gen_bool(0.7);
+    }
+    sim.reset(json!({"mode": "adv"}));
+    let nscripts = sim.chain.scripts.len();
+    let mut list = Vec::new();
+    for sid in 0..nscripts {
+        if rng.gen_bool(0.7) {
+            list.push((sid, rng.gen_bool(0.25), rng.gen_range(0..=2)));
+        }
+    }
+    if list.is_empty() {
+        list.push((0, false, 0));
+    }
+    env.set_scripts(&mut sim, "all", &list);
+    let ntx = sim.chain.txs.len();
+    let rounds = main_len / 2 + 10;
+    for r in 0..rounds {
+        let n = env.peers.len();
+        for i in 0..n {
+            if !env.peers[i].connected {
+                env.connect(&mut sim, i);
+            }
+            env.grow(&sim, i, rng.gen_range(0..=2));
+            env.send_last_state(&mut sim, i);
+        }
+        env.refresh(&mut sim);
+        for i in 0..n {
+            while env.peers[i].connected && env.answer_proof(&mut sim, i) {}
+        }
+        env.refresh(&mut sim);
+        if r % 3 == 1 {
+            env.rpc_fetch_tx(&mut sim, rng.gen_range(0..ntx));
+            let nb = sim.chain.blocks.len();
+            env.rpc_fetch_header(&mut sim, rng.gen_range(0..nb));
+            env.fetch_tick(&mut sim);
+        }
+        for token in [2u64, 1, 0] {
+            env.filter_tick(&mut sim, token, true);
+            drain_adv(&mut sim, &mut env, rng, interval, with_subst);
+        }
+        if rng.gen_bool(0.15) {
+            let i = rng.gen_range(0..n);
+            env.unsolicited_filters(&mut sim, i);
+        }
+        if rng.gen_bool(0.1) {
+            env.restart(&mut sim);
+            if rng.gen_bool(0.7) {
+                // a stale batch right after the restart, before the matched blocks are recovered
+                env.connect(&mut sim, 0);
+                env.send_last_state(&mut sim, 0);
+                while env.answer_proof(&mut sim, 0) {}
+                env.unsolicited_filters(&mut sim, 0);
+            }
+        }
+        env.idle_tick(&mut sim);
+        drain_adv(&mut sim, &mut env, rng, interval, with_subst);
+        env.fetch_tick(&mut sim);
+        drain_adv(&mut sim, &mut env, rng, interval, with_subst);
+        sim.advance(1);
+        env.refresh(&mut sim);
+        let dropped = sim.last_drops.clone();
+        for i in 0..n {
+            if dropped.contains(&env.peers[i].idx) && env.peers[i].connected {
+                env.disconnect(&mut sim, i);
+            }
+        }
+    }
+    for i in 0..npeers {
+        env.grow(&sim, i, u64::MAX / 2);
+    }
+    for _ in 0..(main_len / 2 + 8) {
+        pump(&mut sim, &mut env, rng, interval);
+        env.fetch_tick(&mut sim);
+        for i in 0..npeers {
+            while env.peers[i].connected && env.answer_txs_proof(&mut sim, i) {}
+        }
+    }
+    let tips_now: Vec<usize> = env.peers.iter().map(|p| p.server.tip + 1).collect();
+    sim.step("Quiescent", json!({"tips": tips_now, "bans": 0}), |_| Ok(()));
+    let lines = sim.lines;
+    let panics = sim.panics.clone();
+    let out = std::mem::replace(&mut sim.out, Box::new(std::io::sink()));
+    (out, lines, panics)
+}
+
 fn sync_scenario(rng: &mut StdRng, sc: usize, out: Box<dyn std::io::Write>, kv: &HashMap<String, String>) -> (Box<dyn std::io::Write>, u64, Vec<String>) {
     let pow = if rng.gen_bool(0.2) { "eaglesong" } else { "dummy" };
     let main_len = rng.gen_range(6..=arg_u64(kv, "maxlen", 30) as usize);
@@ -197,7 +360,7 @@ fn rand_scenario(rng: &mut StdRng, sc: usize, out: Box<dyn std::io::Write>, kv: 
     env.set_scripts(&mut sim, "all", &l0);
     let steps = arg_u64(kv, "steps", 150);
     let w_scripts = if profile == "scripts" { 8 } else { 1 };
-    let w_fetch = if profile == "fetch" { 10 } else if profile == "sync" { 3 } else { 1 };
+    let w_fetch = if profile == "fetch" || profile == "adv" { 10 } else if profile == "sync" { 3 } else { 1 };
     let switch_at = if profile == "fork" { rng.gen_range(steps / 4..steps * 3 / 4) } else { u64::MAX };
     let mut blocks_q: Vec<(usize, ckb_types::packed::SyncMessage)> = Vec::new();
     let ntx = sim.chain.txs.len();
@@ -247,19 +410,34 @@ fn rand_scenario(rng: &mut StdRng, sc: usize, out: Box<dyn std::io::Write>, kv: 
             52..=55 => env.fetch_tick(&mut sim),
             56..=69 => {
                 if env.peers[i].connected {
+                    if (profile == "adv" || profile == "advsub") && rng.gen_bool(0.35) {
+                        // the bans are not enforced: the honest answer follows on the same session
+                        env.mutate_filters(&mut sim, i, rng, profile == "advsub");
+                    }
+                    if profile == "adv" && rng.gen_bool(0.1) {
+                        env.unsolicited_filters(&mut sim, i);
+                    }
                     env.answer_filter(&mut sim, i, interval);
                     env.enforce_bans(&mut sim);
                 }
             }
             70..=77 => {
                 if env.peers[i].connected {
-                    env.answer_blocks_proof(&mut sim, i);
+                    if profile == "adv" && rng.gen_bool(0.3) {
+                        env.mutate_blocks_proof(&mut sim, i, rng);
+                    } else {
+                        env.answer_blocks_proof(&mut sim, i);
+                    }
                     env.enforce_bans(&mut sim);
                 }
             }
             78..=80 => {
                 if env.peers[i].connected {
-                    env.answer_txs_proof(&mut sim, i);
+                    if profile == "adv" && rng.gen_bool(0.4) {
+                        env.mutate_txs_proof(&mut sim, i, rng);
+                    } else {
+                        env.answer_txs_proof(&mut sim, i);
+                    }
                     env.enforce_bans(&mut sim);
                 }
             }
@@ -283,6 +461,16 @@ fn rand_scenario(rng: &mut StdRng, sc: usize, out: Box<dyn std::io::Write>, kv: 
                     let k = rng.gen_range(0..blocks_q.len());
                     let (j, m) = blocks_q.remove(k);
                     if env.peers[j].connected {
+                        if profile == "adv" && rng.gen_bool(0.25) {
+                            // first a forged body under the right header, then (maybe) the real block
+                            let bid = match m.to_enum() {
+                                ckb_types::packed::SyncMessageUnion::SendBlock(sb) => sim.chain.id_of(&sb.block().header().calc_header_hash()),
+                                _ => None,
+                            };
+                            if let Some(bid) = bid {
+                                env.deliver_forged_block(&mut sim, j, bid, rng.gen_range(0..3));
+                            }
+                        }
                         env.deliver_block(&mut sim, j, m, "true");
                     }
                 }
@@ -433,7 +621,171 @@ fn fork_scenario(rng: &mut StdRng, sc: usize, out: Box<dyn std::io::Write>, kv: 
     (out, lines, panics)
 }
 
+/// C08: a deterministic-by-seed sync history (first-run initialisation, set_scripts, filter batches,
+/// block download and indexing, a second set_scripts, check point finalisation, a shallow fork
+/// switch with rollback) is run once to count the storage writes W, then once per crash point k:
+/// the k-th write aborts the process, the store is reopened and honest syncing continues.
+fn crash_history(seed: u64, sc: usize, k: Option<usize>, out: Box<dyn std::io::Write>, kv: &HashMap<String, String>) -> (Box<dyn std::io::Write>, u64, Vec<String>, usize) {
+    use std::sync::atomic::{AtomicUsize, Ordering};
+    use std::sync::Arc;
+    let mut rng = StdRng::seed_from_u64(seed);
+    let rng = &mut rng;
+    let last_n = 3u64;
+    let interval = 4u64;
+    let npeers = 1usize;
+    let a_len = rng.gen_range(9..=arg_u64(kv, "maxlen", 14) as usize);
+    let depth = rng.gen_range(1..=2usize);
+    let p = ChainParams { pow: "dummy".to_owned(), epoch_len: (4, 8), vary_difficulty: false };
+    let scripts = gen::default_scripts();
+    let mut chain = SimChain::new("dummy", &scripts);
+    let mut tg = TxGen::new(scripts.len(), 3);
+    let a_tip = gen::extend_with_txs(&mut chain, 0, a_len, &p, rng, &mut tg);
+    let fork_at = chain.ancestor_at(a_tip, (a_len - depth) as u64).unwrap();
+    let b_tip = gen::extend_with_txs(&mut chain, fork_at, depth + 2, &p, rng, &mut tg);
+    // the write counter / crash trigger
+    let counter = Arc::new(AtomicUsize::new(0));
+    let labels = Arc::new(std::sync::Mutex::new(Vec::<String>::new()));
+    {
+        let counter = Arc::clone(&counter);
+        let labels = Arc::clone(&labels);
+        let kk = k;
+        crate::verif_hooks::set(Some(Arc::new(move |kind: &'static str, label: &str| {
+            if kind != "write" {
+                return;
+            }
+            let n = counter.fetch_add(1, Ordering::SeqCst) + 1;
+            labels.lock().unwrap().push(label.to_owned());
+            if Some(n) == kk {
+                panic!("verif-crash:{}:{}", n, label);
+            }
+        })));
+    }
+    let cfg = Config { last_n, max_outbound: npeers as u32, interval, blocks_in_transit: 2 };
+    // first-run initialisation may itself be the crash point
+    let dir = crate::verif::client::fresh_dir("crash");
+    let consensus = chain.consensus.clone();
+    let opened = {
+        let (d, c, g) = (dir.clone(), consensus.clone(), cfg.clone());
+        crate::verif::client::guard_val(move || crate::verif::client::Client::open(d, c, g))
+    };
+    let mut init_crashed = false;
+    let client = match opened {
+        Ok(c) => c,
+        Err(msg) => {
+            init_crashed = true;
+            crate::verif_hooks::set(None);
+            let (d, c, g) = (dir.clone(), consensus.clone(), cfg.clone());
+            match crate::verif::client::guard_val(move || crate::verif::client::Client::open(d, c, g)) {
+                Ok(c) => c,
+                Err(m2) => {
+                    // the store is bricked by a crash during first-run initialisation
+                    let mut out = out;
+                    use std::io::Write;
+                    writeln!(out, "{}", json!({"ev": "DeadStore", "sc": format!("crash-{}-{}", sc, k.unwrap_or(0)),
+                        "a": {"during": "Open", "label": msg, "msg": m2}})).unwrap();
+                    let _ = std::fs::remove_dir_all(&dir);
+                    return (out, 1, vec![m2], counter.load(Ordering::SeqCst));
+                }
+            }
+        }
+    };
+    let mut sim = Sim {
+        chain,
+        client: Some(client),
+        clock: crate::verif::client::Clock::new(),
+        names: (1..=npeers).map(ckb_network::PeerIndex::new).collect(),
+        inbox: Vec::new(),
+        out,
+        lines: 0,
+        scenario: format!("crash-{}-{}", sc, k.unwrap_or(0)),
+        parts: vec!["peersync", "filter"],
+        panics: Vec::new(),
+        last_drops: Vec::new(),
+        last_bans: Vec::new(),
+        crashed: false,
+        dead: false,
+    };
+    let mut env = Env::new(&sim, &[(a_tip, a_tip)]);
+    env.peers[0].server.filters_batch = 3;
+    env.peers[0].server.hashes_batch = 5;
+    sim.reset(json!({"mode": "crash", "k": k.unwrap_or(0), "initCrashed": init_crashed}));
+    let list1 = vec![(0usize, false, 0u64), (3usize, true, 1u64)];
+    let list2 = vec![(1usize, false, 2u64)];
+    // the scripted history; after a crash the user re-issues the interrupted set_scripts
+    let mut phase = 0;
+    let total_rounds = a_len / 2 + 12;
+    let mut round = 0;
+    while round < total_rounds && !sim.dead {
+        if phase == 0 {
+            env.set_scripts(&mut sim, "all", &list1);
+            if sim.crashed { sim.crashed = false; env.after_crash(); continue; }
+            phase = 1;
+        }
+        if phase == 1 && round == 3 {
+            env.set_scripts(&mut sim, "partial", &list2);
+            if sim.crashed { sim.crashed = false; env.after_crash(); continue; }
+            phase = 2;
+        }
+        if phase == 2 && round == a_len / 2 + 4 {
+            for ep in env.peers.iter_mut() {
+                ep.leaf = b_tip;
+                ep.server.tip = b_tip;
+            }
+            sim.inbox.clear();
+            phase = 3;
+        }
+        pump(&mut sim, &mut env, rng, interval);
+        if sim.crashed { sim.crashed = false; env.after_crash(); }
+        round += 1;
+    }
+    crate::verif_hooks::set(None);
+    // convergence after the crash
+    if !sim.dead {
+        for _ in 0..(sim.chain.blocks.len() / 2 + 8) {
+            pump(&mut sim, &mut env, rng, interval);
+        }
+        let tips_now: Vec<usize> = env.peers.iter().map(|p| p.server.tip + 1).collect();
+        sim.step("Quiescent", json!({"tips": tips_now, "bans": 0}), |_| Ok(()));
+    }
+    let lines = sim.lines;
+    let panics = sim.panics.clone();
+    let out = std::mem::replace(&mut sim.out, Box::new(std::io::sink()));
+    let w = counter.load(Ordering::SeqCst);
+    let _ = labels;
+    (out, lines, panics, w)
+}
+
+fn run_crash(kv: &HashMap<String, String>) -> i32 {
+    let seed = arg_u64(kv, "seed", 1);
+    let n = arg_u64(kv, "n", 1) as usize;
+    let maxk = arg_u64(kv, "maxk", 40) as usize;
+    let path = arg_str(kv, "out", "/dev/stdout");
+    let mut out: Box<dyn std::io::Write> = Box::new(BufWriter::new(File::create(&path).expect("open out")));
+    let mut total = 0;
+    let mut points = 0;
+    for sc in 0..n {
+        let s = seed.wrapping_mul(7919).wrapping_add(sc as u64);
+        let (o, lines, _p, w) = crash_history(s, sc, None, out, kv);
+        out = o;
+        total += lines;
+        // crash points: all of them, or an evenly spread sample of at most maxk
+        let ks: Vec<usize> = if w <= maxk { (1..=w).collect() } else { (0..maxk).map(|i| 1 + i * w / maxk).collect() };
+        for k in ks {
+            let (o, lines, _p, _w) = crash_history(s, sc, Some(k), out, kv);
+            out = o;
+            total += lines;
+            points += 1;
+        }
+    }
+    out.flush().ok();
+    eprintln!("filtersync mode=crash histories={} crash_points={} lines={}", n, points, total);
+    0
+}
+
 pub fn run(kv: &HashMap<String, String>) -> i32 {
+    if arg_str(kv, "mode", "sync") == "crash" {
+        return run_crash(kv);
+    }
     let seed = arg_u64(kv, "seed", 1);
     let n = arg_u64(kv, "n", 5) as usize;
     let mode = arg_str(kv, "mode", "sync");
@@ -445,6 +797,8 @@ pub fn run(kv: &HashMap<String, String>) -> i32 {
         let mut rng = StdRng::seed_from_u64(seed.wrapping_mul(1_000_003).wrapping_add(sc as u64));
         let (o, lines, p) = match mode.as_str() {
             "pump" => sync_scenario(&mut rng, sc, out, kv),
+            "adv" => adv_scenario(&mut rng, sc, out, kv, false),
+            "advsub" => adv_scenario(&mut rng, sc, out, kv, true),
             "sync" | "scripts" | "fetch" | "forkrand" => rand_scenario(&mut rng, sc, out, kv, if mode == "forkrand" { "fork" } else { &mode }),
             "fork" => fork_scenario(&mut rng, sc, out, kv),
             _ => {
